@@ -171,6 +171,31 @@ def prog_thread_exception_and_join(P):
     return [parent], lambda: ("seen", tuple(seen))
 
 
+def prog_is_alive(P):
+    """Thread.is_alive(): False before start(), True from start() until the body has ended (so either
+    value while it runs concurrently), False after join(); join() of an unstarted thread raises."""
+    def child():
+        P.delay()
+
+    def parent(out):
+        t = P.Thread(child)
+        u = P.Thread(child)
+        out.append(("before-start", t.is_alive()))
+        t.start()
+        out.append(("after-start", t.is_alive()))
+        P.delay()
+        out.append(("later", t.is_alive()))
+        t.join()
+        out.append(("after-join", t.is_alive()))
+        out.append(("never-started", u.is_alive()))
+        try:
+            u.join()
+            out.append(("join-unstarted", "returned"))
+        except RuntimeError:
+            out.append(("join-unstarted", "raised"))
+    return [parent], lambda: ("done",)
+
+
 def prog_executor(P):
     e = P.Event()
 
@@ -197,7 +222,7 @@ def prog_executor(P):
 
 
 PROGRAMS = [prog_notified_then_cleared, prog_wait_on_set_flag, prog_clear_vs_set, prog_pause_handshake,
-            prog_lock_mutex, prog_try_lock, prog_thread_exception_and_join, prog_executor]
+            prog_lock_mutex, prog_try_lock, prog_thread_exception_and_join, prog_is_alive, prog_executor]
 
 
 # ------------------------------------------------------------------------------------------------
